@@ -8,7 +8,8 @@
 //	remoting coal-stress <maxBatch> <callers> <msgs> <histories> <seed> <trace.ndjson>
 //	    C27: free-running concurrent RemoteTell callers, scripted transport failures, close at a
 //	    random moment.
-//	remoting pool ...   (C28, see pool.go)       remoting meta ...   (C29, see meta.go)
+//	remoting pool-replay | pool-stress ...   C28, see pool.go
+//	remoting sys-tell | sys-ask | sys-dead ...   C29 / C28 / C27 on two real actor systems, see sys.go
 package main
 
 import (
@@ -34,6 +35,12 @@ func main() {
 		poolReplayMain(os.Args[2:])
 	case "pool-stress":
 		poolStressMain(os.Args[2:])
+	case "sys-tell":
+		sysTellMain(os.Args[2:])
+	case "sys-ask":
+		sysAskMain(os.Args[2:])
+	case "sys-dead":
+		sysDeadMain(os.Args[2:])
 	default:
 		fatal("unknown subcommand", os.Args[1])
 	}
